@@ -5,7 +5,7 @@ conversions, get_tfidf, get_membership / from_membership, top_k.
 import Mathlib.Algebra.Order.Ring.Abs
 import Mathlib.Algebra.Order.Field.Rat
 import Mathlib.Tactic.Linarith
-import SkNet.Lemmas.LinOpExpr
+import SkNet.Lemmas.LinOp2d
 import SkNet.Model.Convert
 import SkNet.Spec.Convert
 
